@@ -10,7 +10,7 @@ SPEC = {
     "gen_header": "From Sky Require Import Gen.Schemas.",
     "corr": "C21_corr.v",
     "prop": "C21_prop.v",
-    "groups": {"enc": ("mism_enc", "pf_enc"), "dec": ("mism_dec", "pf_dec")},
+    "groups": {"enc": ("mism_enc", "pf_enc"), "dec": ("mism_dec", "pf_dec"), "reuse": (None, "pf_reuse")},
     "must_be_true": ["names_agree", "all_wf"],
     "trusted_base": [
         "translator unit Schemas: schema of each generated codec's type derived from struct definitions + enc tags (go/types), re-derived on every run",
@@ -22,6 +22,33 @@ SPEC = {
         "values with >= 2^32 elements are not generated",
     ],
 }
+
+
+def deep_search(ctx):
+    """After a break that the model-sized search could not turn into a failing
+    input: generated vs reference codec on the implementation alone, with
+    element counts far beyond what Coq can evaluate (harness c21 -extra big)."""
+    import json, os
+    out = os.path.join(vf.BUILD, "data_C21_big_%d" % os.getpid())
+    rc, log = vf.harness("c21", ["-extra", "big", "-seed", ctx.seed, "-out", out + ".v", "-json", out + ".json"], timeout=1500)
+    hits = []
+    try:
+        sj = json.load(open(out + ".json"))
+        ctx.coverage["deep_search_tried"] = sj.get("deep_tried", 0)
+        for h in sj.get("deep_hits", []):
+            hits.append((h, "property fails on the implementation (generated codec vs reference encoder): %s field path %s with %s elements: %s: generated '%s', reference '%s'"
+                         % (h["type"], h["path"], h["count"], h["api"], h["generated"], h["reference"])))
+    except Exception as e:  # the search is best effort
+        ctx.coverage["deep_search_error"] = str(e)[:200] + " " + log[-300:]
+    for ext in (".v", ".json"):
+        try:
+            os.remove(out + ext)
+        except OSError:
+            pass
+    return hits
+
+
+SPEC["deep_search"] = deep_search
 
 
 def run(ctx):
